@@ -65,9 +65,11 @@ class C04(Suite):
         # write tilings: all compositions of n <= 6 (quick: <= 4)
         nmax = 4 if tier == "quick" else 6
         for siz, tys in SIZED.items():
-            for ty in (tys if tier == "thorough" else tys[:1]):
+            for j, ty0 in enumerate(tys if tier == "thorough" else tys[:1]):
                 for L in (7, 9):
                     for idx in (0, 2):
+                        # (the quick tier rotates through the types of this element size instead of taking them all)
+                        ty = ty0 if tier == "thorough" else tys[(L // 2 + idx // 2) % len(tys)]
                         plan = []
                         for n in range(1, nmax + 1):
                             for comp in compositions(n):
